@@ -567,9 +567,9 @@ async fn scenario(c: &Case, known: &Known) -> Result<Outcome, String> {
                             out.classes.insert(x);
                             if x == "answer-after-failover" {
                                 out.nontrivial = true;
-                                if failed_before {
-                                    out.classes.insert("healthy-endpoint-contacted-after-failed-query");
-                                }
+                            }
+                            if (x == "answer-after-failover" || x == "answer-first-try") && failed_before {
+                                out.classes.insert("healthy-endpoint-contacted-after-failed-query");
                             }
                         }
                     }
